@@ -26,6 +26,8 @@
     an injective label). SHA-256 over the rendered document (IsCommitted) = equality of contents.
   * did:nuts external state: `pub d` = the documents published for DID `d`, newest first (what the didstore resolves).
   * Go map iteration (`range r.MethodManagers`, `range groupedChanges`) = explicit order arguments.
+  * The clock: `now` is a number of seconds advanced by `tick`; one first transaction stamps its versions with one
+    reading, `restamp` makes them differ afterwards (second boundaries inside the transaction).
   * A fault is either "the did:nuts Commit fails" or "the process stops before the k-th Commit call"
     (k = number of calls made ⇒ stop before the clean-up transaction). did:web's Commit cannot fail (it returns nil).
 -/
@@ -101,6 +103,8 @@ structure Cfg where
   notFoundIsUncommitted : Bool
   /-- `deleteUncommittedChange`: a `created` change also deletes the DID row -/
   rollbackDeletesCreatedDID : Bool
+  /-- `Rollback` loads ALL changes of every transaction it found an old change for -/
+  sweepWholeTx : Bool
   deriving Repr
 
 structure World where
@@ -324,17 +328,22 @@ def committedLoop (cfg : Cfg) (pub : Nat → List Content) : List Change → Res
     | .ok true => committedLoop cfg pub chs
     | r => r
 
-/-- `did_change_log inner join did_document_version on updated_at < now - threshold`, DID preloaded -/
-def changesOf (cfg : Cfg) (now : Nat) (r : DidRow) : List Change :=
+/-- `did_change_log inner join did_document_version`, DID preloaded -/
+def pendingOf (r : DidRow) : List Change :=
   r.vers.filterMap fun v =>
-    match v.pending with
-    | some p =>
-      if v.ts + cfg.threshold < now then
-        some { did := r.id, method := r.method, row := v.row, typ := p.typ, tx := p.tx, ts := v.ts, c := v.c }
-      else none
-    | none => none
+    v.pending.map fun p => { did := r.id, method := r.method, row := v.row, typ := p.typ, tx := p.tx, ts := v.ts, c := v.c }
 
-def oldChanges (cfg : Cfg) (w : World) : List Change := w.dids.flatMap (changesOf cfg w.now)
+def allChanges (w : World) : List Change := w.dids.flatMap pendingOf
+
+/-- `… on updated_at < now - threshold` -/
+def oldChanges (cfg : Cfg) (w : World) : List Change :=
+  (allChanges w).filter (fun ch => ch.ts + cfg.threshold < w.now)
+
+/-- the changes the sweep groups by transaction: the old ones, or (whole-transaction mode) every change of a transaction
+    that has an old one -/
+def sweepChanges (cfg : Cfg) (w : World) : List Change :=
+  if cfg.sweepWholeTx then (allChanges w).filter (fun ch => (oldChanges cfg w).any (fun o => o.tx = ch.tx))
+  else oldChanges cfg w
 
 def sweepApply (cfg : Cfg) (w : World) (group : List Change) (tx : Nat) (committed : Bool) : World :=
   deleteLogTx tx (if committed then w else deleteChanges cfg group w)
@@ -350,13 +359,19 @@ def sweepTxs (cfg : Cfg) (old : List Change) : List Nat → World → Res World
 
 /-- `Rollback`; `txOrder` = iteration order of `groupedChanges`. An error rolls the sweep's SQL transaction back. -/
 def sweep (cfg : Cfg) (txOrder : List Nat → List Nat) (w : World) : World × String :=
-  let old := oldChanges cfg w
+  let old := sweepChanges cfg w
   match sweepTxs cfg old (txOrder (old.map (·.tx)).eraseDups) w with
   | .ok w' => (w', "ok")
   | .err e => (w, "err:" ++ e)
   | .panic s => (w, "panic:" ++ s)
 
 def tick (d : Nat) (w : World) : World := { w with now := w.now + d }
+
+/-- every `CreateOrUpdate` reads the clock itself (`UpdatedAt: time.Now().Unix()`): the versions one transaction writes
+    need not carry the same stamp. `restamp f` replaces the stamps (a schedule event; the harness uses it to make the
+    pending versions of one method older) -/
+def restamp (f : DidRow → Ver → Nat) (w : World) : World :=
+  { w with dids := w.dids.map (fun r => { r with vers := r.vers.map (fun v => { v with ts := f r v }) }) }
 
 /-! ### observations -/
 
